@@ -20,3 +20,10 @@ package execext
 //@   sweep                                                                                                     [C16]
 //@ func ExpandFields
 //@   sweep                                                                                                     [C16]
+
+// ---- C12: choosing the working directory of a command (also used for sh: variables, status: and precondition
+// commands, which run in the query modes too) only looks at the disk; a directory that does not exist yet is
+// recorded on the runner, never created here
+//@ func dirOption$1
+//@   modifies heap
+//@   ensures unchanged(fs_exists) && unchanged(fs_ver)                                                         [C12]
